@@ -45,6 +45,8 @@ class ReadContract(LoaderContract):
     may_raise = ()
 
     def reader(self, c):
+        if self.fault_mode:
+            c.ghost['io_mode'] = 'faulty'
         lay = 'default' if self.two_d and self.cfg[1][1] == 4 else layout_of(self.cfg) if not self.two_d else 'general'
         g = O.mk_geo(c, layout=lay, two_d=self.two_d, cfg=self.cfg, min_dim=self.min_dim)
         rd = O.mk_reader(c, c.ex.prog, g, cls_name=self.cls_name, preload=self.preload, local=self.local, structured=self.structured)
@@ -52,6 +54,7 @@ class ReadContract(LoaderContract):
 
     def expect_reads(self, c, g, specs, label='reads', cell=None):
         """the read log is exactly the given list of families: (trip counts, offset(*indices), length)"""
+        self.check_no_fault(c)
         if self.preload:
             GH.require_read_count(c, 0, 'preload_noreads')
             return
@@ -568,3 +571,21 @@ for _anti in (False, True):
             _cls = type(f'Diag_{int(_anti)}{int(_sub)}{int(_win)}', (Diagonal,), dict(anti=_anti, sub=_sub, win=_win))
             register(_cls, 'read.py::SgzReader.read_' + ('anticorrelated' if _anti else 'correlated') + '_diagonal', ['C02', 'C14'],
                      [CFG_DEFAULT[3], CFG_ZSLICE[0], CFG_NOT_DEFAULT_NOT_Z[0]], modes=('file',), tag=f'sub{int(_sub)}win{int(_win)}')
+
+
+# ---------------------------------------------------------------------------------------------
+# C17 / C18 variants of the read methods (backend may fail on any range read)
+from .c_loader import FAULT_PROPS      # noqa: E402
+_FC = [CFG_DEFAULT[3], CFG_ZSLICE[0], CFG_NOT_DEFAULT_NOT_Z[0]]
+register(ReadSubvolume, 'read.py::SgzReader.read_subvolume', FAULT_PROPS, _FC, modes=('fault',))
+register(ReadVolume, 'read.py::SgzReader.read_volume', FAULT_PROPS, _FC, modes=('fault',))
+register(ReadInline, 'read.py::SgzReader.read_inline', FAULT_PROPS, _FC, modes=('fault',))
+register(ReadCrossline, 'read.py::SgzReader.read_crossline', FAULT_PROPS, _FC, modes=('fault',))
+register(ReadZslice, 'read.py::SgzReader.read_zslice', FAULT_PROPS, _FC, modes=('fault',))
+register(ReadSubplane, 'read.py::SgzReader.read_subplane', FAULT_PROPS, [ALL2[0], CFG_2D_GENERAL[0]], modes=('fault',))
+for _w in ('none', 'both'):
+    register(type('GetTraceF_' + _w, (GetTrace,), dict(window=_w)), 'read.py::SgzReader.get_trace', FAULT_PROPS, _FC, modes=('fault',), tag='win:' + _w)
+    register(type('GetTrace2dF_' + _w, (GetTrace2d,), dict(window=_w)), 'read.py::SgzReader.get_trace', FAULT_PROPS, [ALL2[0], CFG_2D_GENERAL[0]], modes=('fault',), tag='2d+win:' + _w)
+for _anti in (False, True):
+    register(type(f'DiagF_{int(_anti)}', (Diagonal,), dict(anti=_anti, sub=False, win=False)),
+             'read.py::SgzReader.read_' + ('anticorrelated' if _anti else 'correlated') + '_diagonal', FAULT_PROPS, [CFG_DEFAULT[3]], modes=('fault',), tag='sub0win0')
